@@ -768,6 +768,15 @@ pub fn gen_prog(src: &mut Src) -> Prog {
     for _ in 0..n_mods {
       if !alias_pool.is_empty() && src.chance(60) {
         mods.push(Mo::Alias(alias_pool.remove(src.below(alias_pool.len()))));
+      } else if !alias_pool.is_empty() && src.chance(12) {
+        // the key of a one-key definition written plainly (the alias itself is then not used in
+        // this trigger): one combination of an alias-spelled entry elsewhere meets this mapping,
+        // the others do not
+        let ai = alias_pool.remove(src.below(alias_pool.len()));
+        let singles: Vec<KeyCode> = aliases[ai].defs.iter().filter(|d| d.keys.len() == 1).map(|d| d.keys[0]).collect();
+        if !singles.is_empty() {
+          mods.push(Mo::Key(src.pick(&singles)));
+        }
       } else if !plain_pool.is_empty() {
         mods.push(Mo::Key(plain_pool.remove(src.below(plain_pool.len()))));
       }
@@ -796,8 +805,26 @@ pub fn gen_prog(src: &mut Src) -> Prog {
     }
     let (mods, forced_key): (Vec<Mo>, Option<KeyCode>) = if !earlier.is_empty() && ((kind == 2 && src.chance(60)) || (kind == 0 && src.chance(15))) {
       let (mut m, k) = src.pick(&earlier);
-      match src.weighted(&[if kind == 2 { 50 } else { 0 }, 30, 20, if kind == 2 { 35 } else { 0 }, if kind == 2 && allow_dup_ro { 35 } else { 0 }]) {
+      match src.weighted(&[if kind == 2 { 50 } else { 0 }, 30, 20, if kind == 2 { 35 } else { 10 }, if kind == 2 && allow_dup_ro { 35 } else { 0 }, if kind == 2 { 30 } else { 10 }]) {
         4 => {} // spelled exactly as before
+        5 => {
+          // a plain key that is a one-key definition of an alias: the alias instead
+          let mut done = false;
+          for pos in 0..m.len() {
+            if let Mo::Key(pk) = m[pos].clone() {
+              if let Some(ai) = aliases.iter().position(|a| a.defs.iter().any(|d| d.keys.len() == 1 && d.keys[0] == pk)) {
+                if !m.contains(&Mo::Alias(ai)) {
+                  m[pos] = Mo::Alias(ai);
+                  done = true;
+                  break;
+                }
+              }
+            }
+          }
+          if !done {
+            src.shuffle(&mut m);
+          }
+        }
         3 => {
           // an alias written out: replaced by the keys of one of its definitions
           if let Some(pos) = m.iter().position(|x| matches!(x, Mo::Alias(_))) {
@@ -883,13 +910,25 @@ pub fn gen_prog(src: &mut Src) -> Prog {
           2 => RRep::Disabled,
           _ => {
             let rletters = gen_letters(src, n_letters, false);
-            RRep::Special { initial: vec![], letters: rletters, delay: gen_ms(src, 400), interval: gen_ms(src, 90) }
+            // chord modifiers before the letters: plain keys and aliases of the trigger; a Shift
+            // here beside a letter that needs Shift names the key twice (nothing forbids that in
+            // a chord)
+            let initial = if src.chance(35) { gen_out_mods(src, 2, &[]) } else { vec![] };
+            RRep::Special { initial, letters: rletters, delay: gen_ms(src, 400), interval: gen_ms(src, 90) }
           }
         };
         body.push(Item::Row { mods, row, to_initial, letters, rep, absorbing });
       }
       _ => {
-        let key = forced_key.unwrap_or_else(|| src.pick(&[SPACE, ENTER, A, S, Q, Z, K1, J]));
+        let mut key = forced_key.unwrap_or_else(|| src.pick(&[SPACE, ENTER, A, S, Q, Z, K1, J]));
+        if forced_key.is_none() && src.chance(5) {
+          // the final key is also a key of one definition of an alias in the trigger: that
+          // combination names it twice (reject or run, C14), the others are fine
+          let cands: Vec<KeyCode> = mods.iter().filter_map(|m| if let Mo::Alias(a) = m { Some(*a) } else { None }).filter(|a| aliases[*a].defs.len() >= 2).flat_map(|a| aliases[a].defs.iter().flat_map(|d| d.keys.clone()).collect::<Vec<_>>()).collect();
+          if !cands.is_empty() {
+            key = src.pick(&cands);
+          }
+        }
         if mods.iter().any(|m| *m == Mo::Key(key)) {
           continue;
         }
